@@ -785,8 +785,16 @@ def check_names(ast):
                 walk_e(s["step"], loc)
                 walk_s(s["body"], loc)
             else:
-                walk_e(s["l"], local)
-                walk_e(s["r"], local)
+                try:
+                    walk_e(s["l"], local)
+                    walk_e(s["r"], local)
+                except SVSyntaxError as ex:
+                    root = s["l"]
+                    while root["k"] != "id":
+                        root = root["e"]
+                    if "[assignment to " in str(ex):
+                        raise
+                    raise SVSyntaxError("%s [assignment to %s]" % (ex, root["n"]))
 
         for p in m["procs"]:
             walk_s(p["body"], frozenset())
